@@ -43,6 +43,17 @@ try:
     rc0, out0 = sh(f'{PY} {tmp}/demo.py', cwd=wt, env=env, timeout=600)
     rec['demo_without_patch_rc'] = rc0
     rc, out = sh(f'git apply {os.path.abspath(src)}/patch.diff', cwd=wt)
+    if rc != 0:
+        # written against an earlier HEAD: try a three-way merge and keep the rebased patch
+        rc, out2 = sh(f'git apply -3 {os.path.abspath(src)}/patch.diff', cwd=wt)
+        if rc == 0:
+            rec['rebased'] = True
+            _, rebased = sh('git diff HEAD', cwd=wt)
+            sh('git reset -q', cwd=wt)
+            with open(os.path.join(src, 'patch.diff'), 'w') as f:
+                f.write(rebased)
+        else:
+            out = out + out2
     rec['patch_applies'] = (rc == 0)
     if rc != 0:
         rec['apply_error'] = out[-500:]
@@ -76,11 +87,13 @@ ok = (rec.get('demo_without_patch_rc') == 0 and rec.get('patch_applies') and rec
       and rec.get('baseline_missing') == [])
 rec['confirmed'] = bool(ok)
 print(json.dumps(rec, indent=1))
+json.dump(rec, open(os.path.join(src, 'last_confirmation.json'), 'w'), indent=1)
 if ok:
     dst = f'/verif/seeded/{sid}'
     os.makedirs(dst, exist_ok=True)
     for f in ('patch.diff', 'demo.py'):
-        shutil.copy(os.path.join(src, f), os.path.join(dst, f))
+        if os.path.abspath(os.path.join(src, f)) != os.path.abspath(os.path.join(dst, f)):
+            shutil.copy(os.path.join(src, f), os.path.join(dst, f))
     meta = json.load(open(os.path.join(src, 'meta.json')))
     meta['confirmation'] = rec
     meta['what_was_run'] = ('tools/confirm_seed.py: fresh scratch worktree of /repo HEAD; demo.py without patch (must exit 0), '
